@@ -5,6 +5,7 @@ import (
 	"go/token"
 	"go/types"
 	"strings"
+	"unsafe"
 
 	"golang.org/x/tools/go/ssa"
 )
@@ -95,6 +96,9 @@ func (m *omap) find(k value) int {
 }
 
 func (m *omap) lookup(k value) (value, bool) {
+	if m != nil && cur != nil && cur.sched != nil && cur.sched.logEvents {
+		cur.sched.logObj(evRead, unsafe.Pointer(m))
+	}
 	i := m.find(k)
 	if i < 0 {
 		return nil, false
@@ -103,6 +107,9 @@ func (m *omap) lookup(k value) (value, bool) {
 }
 
 func (m *omap) insert(k, v value) {
+	if cur != nil && cur.sched != nil && cur.sched.logEvents {
+		cur.sched.logObj(evWrite, unsafe.Pointer(m))
+	}
 	if m.fromInit && cur != nil && !cur.inInit {
 		cur.globalWrite("update of a map created during package initialisation")
 	}
